@@ -89,7 +89,8 @@ def gamma_type(T, style=0):
     if k == "tuplevar":
         return tuple[g(T["a"]), ...] if pep else Tuple[g(T["a"]), ...]
     if k == "type":
-        return type[CLASSES[T["c"]]] if pep else Type[CLASSES[T["c"]]]
+        targ = Any if T["c"] == "any" else CLASSES[T["c"]]
+        return type[targ] if pep else Type[targ]
     if k == "union":
         args = [g(a) for a in T["as"]]
         if pep:
